@@ -993,12 +993,90 @@ class Interp:
                 self.stats.models_used.add("override:" + hit)
                 return ov[hit](self, args, callee)
         if f is not None and not self.models.overrides(key, callee):
+            if self._summarisable(f, args):
+                r = self._summary(f, args)
+                if r is not None:
+                    return r[0]
             return self.call_function(f, args)
         m = self.models.lookup(key, callee)
         if m is None:
             raise Unsupported("no model for callee `%s` (key %s)" % (callee, key))
         self.stats.models_used.add(m.__name__ if hasattr(m, "__name__") else str(m))
         return m(self, args, callee)
+
+    # ------------------------------------------------------------------ summaries of small pure predicates
+    # A crate function from scalars to a scalar (a character-class test, a comparison helper) called on a symbolic argument is explored on its
+    # own, once, and its result is used as one if-then-else expression: the caller's path does not fork on the callee's internal branches
+    # (`matches!` on ranges instead of a string search would otherwise multiply the caller's paths by the number of ranges).
+    def _summarisable(self, f, args):
+        import os as _os
+        if _os.environ.get("VERIF_NO_SUMMARY") or self.env.get("no_summary") or getattr(self, "_in_summary", 0) > 2:
+            return False
+        rt = (f.ret_type or "").strip()
+        if rt not in INT_BITS or len(f.blocks) > 80 or not args or len(args) > 3:
+            return False
+        anysym = False
+        for a in args:
+            d = a.get() if isinstance(a, Ref) else a
+            if isinstance(d, bool) or isinstance(d, int):
+                continue
+            if is_sym(d) and (z3.is_bv(d) or z3.is_bool(d)):
+                anysym = True
+                continue
+            return False
+        return anysym
+
+    def _summary(self, f, args):
+        vals = [a.get() if isinstance(a, Ref) else a for a in args]
+        key = (f.name, tuple(str(v) for v in vals), tuple(isinstance(a, Ref) for a in args))
+        cache = self.st.ex.__dict__.setdefault("_summaries", {})
+        if key in cache:
+            return cache[key]
+        sub = Explorer(self.p, self.models, seed=0, max_paths=400, max_steps=20000, query_timeout_ms=self.st.ex.query_timeout_ms)
+        outs = []
+        bad = []
+        ov = self.env.get("overrides")
+
+        def build(st2, it2):
+            it2._in_summary = getattr(self, "_in_summary", 0) + 1
+            if ov:
+                it2.env["overrides"] = ov
+            a2 = [Ref([v], 0) if isinstance(a, Ref) else v for a, v in zip(args, vals)]
+            return lambda: it2.call_function(f, a2)
+
+        def on_path(st2, it2, out):
+            if out[0] != "return" or isinstance(out[1], (Agg, Ref, SString, SVec, Str)):
+                bad.append(out)
+                return []
+            outs.append((list(st2.constraints), out[1]))
+            return []
+        saved = CURRENT[0]
+        try:
+            sub.explore(build, on_path)
+        finally:
+            CURRENT[0] = saved
+        self.stats.blocks += sub.stats.blocks
+        self.stats.queries += sub.stats.queries
+        self.stats.unsat += sub.stats.unsat
+        self.stats.sat += sub.stats.sat
+        self.stats.solver_s += sub.stats.solver_s
+        for k, v in sub.stats.functions.items():
+            self.stats.functions[k] = v
+        if bad or sub.errors or not outs:
+            cache[key] = None
+            return None
+        rt = f.ret_type.strip()
+
+        def lift(v):
+            if rt == "bool":
+                return to_bool(v) if not isinstance(v, bool) else z3.BoolVal(v)
+            return bv(v, INT_BITS[rt])
+        res = lift(outs[-1][1])
+        for cons, v in reversed(outs[:-1]):
+            res = z3.If(z3.And(cons) if cons else z3.BoolVal(True), lift(v), res)
+        res = simp(res)
+        cache[key] = (res,)
+        return cache[key]
 
     def run_drop(self, v, depth):
         """Drop glue for crate types: a value of a type with `impl Drop` runs its `drop` (then its fields are dropped in turn)."""
